@@ -271,12 +271,12 @@ PROPS["C09"]["build_expect"] = gens.build_expect_c09
 TIE_GROUPS = {
     "C01": ["Mask", "Swar"], "C02": ["Mask", "Swar"], "C06": ["Mask", "Swar", "IterHint"], "C07": ["Mask", "Swar"],
     "C09": ["Mask", "Swar"], "C05": ["Mask", "Pair", "PackedPairNew"],
-    "C03": ["RabinKarp", "ByteSet", "Shift", "Suffix", "TwoWayNew", "TopLevel", "Prefilter", "Searcher", "Mask"],
-    "C04": ["RabinKarp", "ByteSet", "Shift", "Suffix", "TwoWayNew", "SearcherRev", "TopLevel", "Mask"],
+    "C03": ["RabinKarp", "ByteSet", "Shift", "Suffix", "TwoWayNew", "TwoWayDispatch", "TopLevel", "Prefilter", "Searcher", "Mask"],
+    "C04": ["RabinKarp", "ByteSet", "Shift", "Suffix", "TwoWayNew", "TwoWayDispatch", "SearcherRev", "TopLevel", "Mask"],
     "C08": ["Prefilter", "Searcher", "IterHint", "IterNext"], "C10": ["Prefilter", "Pre", "Searcher", "Pair", "PortablePrefilter"], "C16": ["Prefilter", "Pre", "IterNext"],
-    "C11": ["Mask", "Pair", "PackedPairNew", "PortablePrefilter"], "C12": ["RabinKarp", "ByteSet", "Shift", "Suffix", "TwoWayNew", "Mask", "Pair", "PackedPairNew"],
+    "C11": ["Mask", "Pair", "PackedPairNew", "PortablePrefilter"], "C12": ["RabinKarp", "ByteSet", "Shift", "Suffix", "TwoWayNew", "TwoWayDispatch", "Mask", "Pair", "PackedPairNew"],
     "C13": ["Searcher", "RabinKarp", "Shift", "Suffix", "Prefilter"],
-    "C14": ["Prefilter", "Pre", "RabinKarp", "Swar", "ByteSet", "Mask", "Pair", "Searcher", "IterHint", "IterNext", "Shift", "Suffix", "TwoWayNew", "SearcherRev", "TopLevel", "PackedPairNew", "PortablePrefilter"],
+    "C14": ["Prefilter", "Pre", "RabinKarp", "Swar", "ByteSet", "Mask", "Pair", "Searcher", "IterHint", "IterNext", "Shift", "Suffix", "TwoWayNew", "TwoWayDispatch", "SearcherRev", "TopLevel", "PackedPairNew", "PortablePrefilter"],
     "C19": ["Pair"],
 }
 for _pid, _g in TIE_GROUPS.items():
